@@ -1262,6 +1262,16 @@ def register_builtins(L):
         f = z3.Or if unparse(node.func).endswith("or") else z3.And
         return st.alloc(ArrData(shape, lambda *i: f(z3bool(fa(*i)), z3bool(fb(*i))), "b"))
 
+    @fn("np.logical_not", "np.invert", "np.bitwise_not")
+    def _np_logical_not(E, st, args, kw, node):
+        """elementwise negation of a boolean array (np.invert / ~ on booleans is the same operation)"""
+        a = as_array(args[0], st) if isinstance(args[0], Ref) else None
+        if a is None or a.kind != "b" or len(args) > 1 or kw:
+            if _isbool(args[0]) and len(args) == 1 and not kw:
+                return (not args[0]) if isinstance(args[0], bool) else z3.Not(args[0])
+            return _np_pure(E, st, args, kw, node)
+        return st.alloc(ArrData(a.shape, lambda *i: z3.Not(z3bool(a.sel(*i))), "b"))
+
     @fn("np.repeat")
     def _np_repeat(E, st, args, kw, node):
         # np.repeat([u], k, axis=0): k copies of the row u
